@@ -64,6 +64,8 @@ struct Entry {
     path: PathBuf,
     data: Option<Vec<u8>>,
     fired: bool,
+    /// errno the operation is to fail with instead of being carried out
+    fail: Option<i32>,
     waker: Option<Waker>,
 }
 
@@ -128,11 +130,22 @@ pub fn peek_data(id: u64) -> Option<Vec<u8>> {
 
 /// Let the operation behind gate `id` proceed.
 pub fn fire(id: u64) -> bool {
+    fire_with(id, None)
+}
+
+/// Complete gate `id` with an injected failure: the operation is not carried out and the
+/// caller sees the OS error `errno` (EIO, ENOSPC, EMFILE, EACCES ...).
+pub fn fire_fail(id: u64, errno: i32) -> bool {
+    fire_with(id, Some(errno))
+}
+
+fn fire_with(id: u64, fail: Option<i32>) -> bool {
     let waker = {
         let mut t = table();
         match t.entries.iter_mut().find(|e| e.id == id && !e.fired) {
             Some(e) => {
                 e.fired = true;
+                e.fail = fail;
                 e.waker.take()
             }
             None => return false,
@@ -193,16 +206,17 @@ impl Gate {
 }
 
 impl Future for Gate {
-    type Output = ();
-    fn poll(self: Pin<&mut Self>, cx: &mut Context<'_>) -> Poll<()> {
+    /// `Some(errno)`: the simulator wants the operation to fail with that OS error.
+    type Output = Option<i32>;
+    fn poll(self: Pin<&mut Self>, cx: &mut Context<'_>) -> Poll<Option<i32>> {
         let me = self.get_mut();
         if me.done {
-            return Poll::Ready(());
+            return Poll::Ready(None);
         }
         let mut t = table();
         if !t.enabled {
             me.done = true;
-            return Poll::Ready(());
+            return Poll::Ready(None);
         }
         match me.id {
             None => {
@@ -215,6 +229,7 @@ impl Future for Gate {
                     path: me.path.clone(),
                     data: me.data.take(),
                     fired: false,
+                    fail: None,
                     waker: Some(cx.waker().clone()),
                 });
                 me.id = Some(id);
@@ -224,10 +239,10 @@ impl Future for Gate {
                 let pos = t.entries.iter().position(|e| e.id == id);
                 match pos {
                     Some(p) if t.entries[p].fired => {
-                        t.entries.remove(p);
+                        let e = t.entries.remove(p);
                         me.id = None;
                         me.done = true;
-                        Poll::Ready(())
+                        Poll::Ready(e.fail)
                     }
                     Some(p) => {
                         t.entries[p].waker = Some(cx.waker().clone());
@@ -237,7 +252,7 @@ impl Future for Gate {
                         // table was reset under us (end of run): complete.
                         me.id = None;
                         me.done = true;
-                        Poll::Ready(())
+                        Poll::Ready(None)
                     }
                 }
             }
